@@ -89,6 +89,7 @@ type Job struct {
 	Avoid    []string `json:"avoid,omitempty"`
 	Out      string   `json:"out"`
 	KeepPlan bool     `json:"keep_plan,omitempty"`
+	GenOnly  bool     `json:"gen_only,omitempty"`
 }
 
 type Finding struct {
@@ -116,10 +117,17 @@ type propCfg struct {
 	Title           string
 }
 
-func tc(runs, chunk, budget int) tierCfg { return tierCfg{Runs: runs, Chunk: chunk, Budget: budget, PerRun: 20} }
+func tc(runs, chunk, budget int) tierCfg {
+	return tierCfg{Runs: runs, Chunk: chunk, Budget: budget, PerRun: 20}
+}
+
+func tcw(runs, chunk, budget, perRun int) tierCfg {
+	return tierCfg{Runs: runs, Chunk: chunk, Budget: budget, PerRun: perRun}
+}
 
 var props = map[string]propCfg{
 	"C03": {Quick: tc(2000, 100, 45), Thorough: tc(150000, 250, 900)},
+	"C18": {Quick: tcw(30000, 500, 45, 6), Thorough: tcw(400000, 500, 900, 6)},
 	"C15": {Quick: tc(4000, 100, 45), Thorough: tc(40000, 100, 900), Race: true},
 }
 
@@ -200,6 +208,7 @@ func prepare(race bool) *build {
 
 func (b *build) cleanup() { os.RemoveAll(b.dir) }
 
+var perRunSec = 20
 var jobSeq int
 var jobMu sync.Mutex
 
@@ -227,7 +236,7 @@ func (b *build) runJob(job *Job, timeout time.Duration) *jobResult {
 	defer os.Remove(jp)
 	defer os.Remove(job.Out)
 	cmd := exec.Command(b.worker, "-test.run", "^TestWorker$", "-test.timeout", "0")
-	cmd.Env = append(os.Environ(), "VERIF_JOB="+jp, "GORACE=halt_on_error=0 history_size=2", "GOMAXPROCS="+gomaxprocs())
+	cmd.Env = append(os.Environ(), "VERIF_JOB="+jp, "VERIF_PERRUN="+strconv.Itoa(perRunSec), "GORACE=halt_on_error=0 history_size=2", "GOMAXPROCS="+gomaxprocs())
 	var stderr bytes.Buffer
 	cmd.Stderr = &stderr
 	cmd.Stdout = &stderr
@@ -245,6 +254,9 @@ func (b *build) runJob(job *Job, timeout time.Duration) *jobResult {
 		res.hung = true
 	}
 	res.stderr = stderr.String()
+	if strings.Contains(res.stderr, "@@HANG ") {
+		res.hung = true
+	}
 	if f, err := os.Open(job.Out); err == nil {
 		sc := bufio.NewScanner(f)
 		sc.Buffer(make([]byte, 1<<20), 1<<28)
@@ -448,7 +460,7 @@ func (b *build) runPlans(plans []*Plan, trace bool, perRun int) []*Outcome {
 				outs[i] = &Outcome{Seed: plans[i].Seed}
 			}
 			if r.hung {
-				outs[i].Violations = append(outs[i].Violations, Violation{Class: "hang", Sig: "hang", Msg: "worker did not finish within the watchdog"})
+				outs[i].Violations = append(outs[i].Violations, Violation{Class: "hang", Sig: hangSig(r.stderr), Msg: "run did not finish within the real-time watchdog (CPU loop or wedge):\n" + tail(r.stderr, 2500)})
 			} else if r.crashed {
 				outs[i].Violations = append(outs[i].Violations, Violation{Class: "fatal", Sig: fatalSig(r.stderr), Msg: tail(r.stderr, 3000)})
 			}
@@ -475,6 +487,23 @@ func fatalSig(stderr string) string {
 		}
 	}
 	return "fatal:worker died"
+}
+
+// hangSig names the innermost library function that was spinning.
+func hangSig(stderr string) string {
+	i := strings.Index(stderr, "@@HANG ")
+	if i < 0 {
+		return "hang"
+	}
+	for _, l := range strings.Split(stderr[i:], "\n") {
+		if strings.HasPrefix(l, "github.com/pion/interceptor") {
+			if j := strings.LastIndex(l, "("); j > 0 {
+				l = l[:j]
+			}
+			return "hang:" + strings.TrimPrefix(l, "github.com/pion/interceptor/")
+		}
+	}
+	return "hang"
 }
 
 func hasSig(o *Outcome, sig string) bool {
@@ -646,6 +675,7 @@ func cmdRun(args []string) int {
 		t.Budget = *budget
 	}
 	seed, _ := strconv.ParseInt(envOr("VERIF_SEED", "1"), 10, 64)
+	perRunSec = t.PerRun
 	t0 := time.Now()
 	b := prepare(pc.Race)
 	defer b.cleanup()
@@ -670,6 +700,7 @@ func cmdRun(args []string) int {
 	var mu sync.Mutex
 	var outs []*Outcome
 	var tooling []string
+	deaths := 0
 	exploreStart := time.Now()
 	deadline := exploreStart.Add(time.Duration(t.Budget) * time.Second)
 	nw := runtime.NumCPU()
@@ -714,10 +745,11 @@ func cmdRun(args []string) int {
 					r2 := b.runJob(one, time.Duration(t.PerRun+10)*time.Second)
 					mu.Lock()
 					if r2.hung || r2.crashed {
-						sig := "hang"
+						sig := hangSig(r2.stderr)
 						if cls == "fatal" {
 							sig = fatalSig(r2.stderr)
 						}
+						deaths++
 						outs = append(outs, &Outcome{Prop: prop, Seed: r.lastRun, Violations: []Violation{{Class: cls, Sig: sig, Msg: tail(r2.stderr, 3000)}}})
 					} else {
 						outs = append(outs, r2.outs...)
@@ -730,7 +762,10 @@ func cmdRun(args []string) int {
 		}()
 	}
 	for _, c := range chunks {
-		if time.Now().After(deadline) {
+		mu.Lock()
+		tooMany := deaths > 12
+		mu.Unlock()
+		if time.Now().After(deadline) || tooMany {
 			skipped++
 			continue
 		}
@@ -803,7 +838,7 @@ func cmdRun(args []string) int {
 		// obtain the plan (regenerate through the worker when it was not attached)
 		plan := fv.o.Plan
 		if plan == nil {
-			job := &Job{Prop: prop, Tier: *tier, SeedFrom: fv.o.Seed, SeedTo: fv.o.Seed + 1, KeepPlan: true, Avoid: avoidFor(avoid, fv.o.Seed, t.Chunk)}
+			job := &Job{Prop: prop, Tier: *tier, SeedFrom: fv.o.Seed, SeedTo: fv.o.Seed + 1, GenOnly: true, Avoid: avoidFor(avoid, fv.o.Seed, t.Chunk)}
 			r := b.runJob(job, time.Duration(t.PerRun+20)*time.Second)
 			for _, o := range r.outs {
 				if o.Plan != nil {
@@ -980,33 +1015,33 @@ func (e *evidence) add(o *Outcome) {
 
 func (e *evidence) finish(b *build, t tierCfg, exploreSec, wall float64, skippedRuns int, tooling []string) {
 	cov := map[string]any{
-		"evaluations":         e.Runs,
-		"distinct_nontrivial": len(e.hashesNT),
-		"rule": "one evaluation = one simulated run (plan = seeded configuration + workload/fault operations + schedule strategy) of the real instrumented interceptor code in a synctest bubble under the simrt scheduler; distinct = distinct event-log hash (every scheduling step, fault and oracle observation is hashed); non-trivial = at least one oracle comparison was made AND at least one fault fired or rare-condition probe was hit",
-		"samples":             e.Samples,
-		"distinct_schedules":  len(e.hashes),
-		"scheduler_steps":     e.Steps,
-		"context_switches":    e.Switches,
-		"simulated_seconds":   e.SimMs / 1000,
-		"oracle_comparisons":  e.Checks,
-		"faults_fired":        e.Faults,
-		"probes_hit":          e.Probes,
-		"schedule_strategies": e.Strategies,
-		"runs_truncated_by_step_budget": e.Truncated,
-		"runs_with_stranded_caller":     e.Stranded,
-		"max_goroutines_in_a_run":       e.MaxG,
+		"evaluations":                       e.Runs,
+		"distinct_nontrivial":               len(e.hashesNT),
+		"rule":                              "one evaluation = one simulated run (plan = seeded configuration + workload/fault operations + schedule strategy) of the real instrumented interceptor code in a synctest bubble under the simrt scheduler; distinct = distinct event-log hash (every scheduling step, fault and oracle observation is hashed); non-trivial = at least one oracle comparison was made AND at least one fault fired or rare-condition probe was hit",
+		"samples":                           e.Samples,
+		"distinct_schedules":                len(e.hashes),
+		"scheduler_steps":                   e.Steps,
+		"context_switches":                  e.Switches,
+		"simulated_seconds":                 e.SimMs / 1000,
+		"oracle_comparisons":                e.Checks,
+		"faults_fired":                      e.Faults,
+		"probes_hit":                        e.Probes,
+		"schedule_strategies":               e.Strategies,
+		"runs_truncated_by_step_budget":     e.Truncated,
+		"runs_with_stranded_caller":         e.Stranded,
+		"max_goroutines_in_a_run":           e.MaxG,
 		"max_distinct_yield_sites_in_a_run": e.Sites,
-		"runs_per_hour":       float64(e.Runs) / (exploreSec + 1e-9) * 3600,
-		"explore_wall_s":      exploreSec,
-		"build_wall_s":        b.buildSec,
-		"runs_planned":        t.Runs,
-		"runs_skipped_by_budget": skippedRuns,
-		"race_detector":       b.race,
-		"instrumentation":     b.instr,
-		"known_findings":      e.Known,
-		"real_components":     []string{"all non-test code of pion/interceptor from /repo's working tree (instrumented only at sync, sync/atomic, math/rand, go, channel/select and map-range sites)", "pion/rtp", "pion/rtcp", "pion/logging types", "golang.org/x/time/rate", "Go runtime channels, timers (synctest fake clock), race detector"},
-		"stubbed_components":  []string{"goroutine choice (simrt scheduler)", "wall clock (testing/synctest bubble)", "network/peer/application (harness goroutines from the plan)", "io.Writer sinks", "logger sinks", "sync.Pool retention policy", "map and select order"},
-		"tooling_problems":    len(tooling),
+		"runs_per_hour":                     float64(e.Runs) / (exploreSec + 1e-9) * 3600,
+		"explore_wall_s":                    exploreSec,
+		"build_wall_s":                      b.buildSec,
+		"runs_planned":                      t.Runs,
+		"runs_skipped_by_budget":            skippedRuns,
+		"race_detector":                     b.race,
+		"instrumentation":                   b.instr,
+		"known_findings":                    e.Known,
+		"real_components":                   []string{"all non-test code of pion/interceptor from /repo's working tree (instrumented only at sync, sync/atomic, math/rand, go, channel/select and map-range sites)", "pion/rtp", "pion/rtcp", "pion/logging types", "golang.org/x/time/rate", "Go runtime channels, timers (synctest fake clock), race detector"},
+		"stubbed_components":                []string{"goroutine choice (simrt scheduler)", "wall clock (testing/synctest bubble)", "network/peer/application (harness goroutines from the plan)", "io.Writer sinks", "logger sinks", "sync.Pool retention policy", "map and select order"},
+		"tooling_problems":                  len(tooling),
 	}
 	doc := map[string]any{
 		"property_id": e.Prop,
